@@ -27,7 +27,7 @@ func init() {
 			Opt:      vrt.Options{RandInt: chooseConnOpt(), Delay: c.P("delay", "0") == "1"},
 			Classify: deadlockIs("blocked-calls-return: a Read/Write/Close/Accept never returned"),
 			Main: func() {
-				r := newMuxRig(rigCfg{conns: nconn, method: method, unit: 256, singleplex: singleplex})
+				r := newMuxRig(rigCfg{conns: nconn, method: method, unit: 256, singleplex: singleplex, wlimit: c.PI("wlimit", 0)})
 				data := patternBytes(0, 0, 0, nd)
 				sdata := patternBytes(0, 1, 0, nsd)
 				var wg sync.WaitGroup
@@ -245,6 +245,7 @@ func init() {
 			{Scenario: "mux.close", Params: vx.P("data", "300", "conns", "3", "delay", "1"), Bound: b(2, 3), Weight: 8},
 			{Scenario: "mux.close", Params: vx.P("data", "300", "conns", "1"), Bound: b(2, 3), Weight: 4},
 			{Scenario: "mux.close", Params: vx.P("data", "300", "conns", "2", "pool", "recycle", "delay", "1"), Bound: b(2, 3), Weight: 5},
+			{Scenario: "mux.close", Params: vx.P("data", "300", "conns", "2", "wlimit", "1", "mode", "simul", "sdata", "300", "delay", "1"), Bound: b(1, 2), Weight: 8},
 			{Scenario: "mux.close", Params: vx.P("data", "5", "conns", "1", "crosscheck", "1"), Bound: 1, Weight: 4},
 			{Scenario: "mux.close", Params: vx.P("data", "5", "sdata", "5", "mode", "simul", "delay", "1"), Bound: b(2, 3), Weight: 9},
 			{Scenario: "mux.close", Params: vx.P("data", "5", "sdata", "5", "mode", "simul", "conns", "1"), Bound: b(1, 2), Weight: 9},
